@@ -40,7 +40,19 @@ pub fn norm(ts: TokenStream) -> Vec<TT> {
             other => v.push(other),
         }
     }
-    v
+    // a trailing comma in front of the `>` that closes a generic argument list (`VertexEntry<\n 0,\n>`: rustfmt wraps long
+    // signatures this way); `,` directly followed by `>` occurs nowhere else in a Rust program
+    let mut w: Vec<TT> = Vec::with_capacity(v.len());
+    let mut it = v.into_iter().peekable();
+    while let Some(t) = it.next() {
+        if let (TT::Punct(p), Some(TT::Punct(q))) = (&t, it.peek()) {
+            if p.as_char() == ',' && q.as_char() == '>' {
+                continue;
+            }
+        }
+        w.push(t);
+    }
+    w
 }
 
 pub fn group_tokens(g: &Group) -> Vec<TT> {
